@@ -58,22 +58,16 @@ func replaceMatchers(selectors matcherHeap, expr *parser.Expr) {
 				continue
 			}
 
-			// Make a copy of the original selectors to avoid modifying them while
-			// trimming filters.
-			filters := make([]*labels.Matcher, len(e.LabelMatchers))
-			copy(filters, e.LabelMatchers)
-
-			// All replacements are done on metrics name only,
-			// so we can drop the explicit metric name selector.
-			filters = dropMatcher(labels.MetricName, filters)
-
-			// Drop filters which are already present as matchers in the replacement selector.
-			for _, s := range replacement {
-				for _, f := range filters {
-					if s.Name == f.Name && s.Value == f.Value && s.Type == f.Type {
-						filters = dropMatcher(f.Name, filters)
-					}
+			// All replacements are done on metrics name only, so we can drop the
+			// explicit metric name selector. Filters which are already present as
+			// matchers in the replacement selector are dropped as well; other
+			// matchers on the same label have to stay.
+			filters := make([]*labels.Matcher, 0, len(e.LabelMatchers))
+			for _, f := range e.LabelMatchers {
+				if f.Name == labels.MetricName || containsMatcher(replacement, f) {
+					continue
 				}
+				filters = append(filters, f)
 			}
 			e.LabelMatchers = replacement
 			*node = &FilteredSelector{
@@ -85,25 +79,13 @@ func replaceMatchers(selectors matcherHeap, expr *parser.Expr) {
 	})
 }
 
-func dropMatcher(matcherName string, originalMatchers []*labels.Matcher) []*labels.Matcher {
-	i := 0
-	for i < len(originalMatchers) {
-		l := originalMatchers[i]
-		if l.Name == matcherName {
-			originalMatchers = append(originalMatchers[:i], originalMatchers[i+1:]...)
-		} else {
-			i++
+func containsMatcher(matchers []*labels.Matcher, m *labels.Matcher) bool {
+	for _, o := range matchers {
+		if o.Name == m.Name && o.Type == m.Type && o.Value == m.Value {
+			return true
 		}
 	}
-	return originalMatchers
-}
-
-func matcherToMap(matchers []*labels.Matcher) map[string]*labels.Matcher {
-	r := make(map[string]*labels.Matcher, len(matchers))
-	for i := 0; i < len(matchers); i++ {
-		r[matchers[i].Name] = matchers[i]
-	}
-	return r
+	return false
 }
 
 // matcherHeap is a set of the most selective label matchers
@@ -133,22 +115,16 @@ func (m matcherHeap) findReplacement(metricName string, matcher []*labels.Matche
 		return nil, false
 	}
 
-	matcherSet := matcherToMap(matcher)
-	topSet := matcherToMap(top)
-	for k, v := range topSet {
-		m, ok := matcherSet[k]
-		if !ok {
-			return nil, false
-		}
-
-		equals := v.Name == m.Name && v.Type == m.Type && v.Value == m.Value
-		if !equals {
+	// Every matcher of the top selector has to be present in the input selector.
+	// A label can have several matchers, so the lists are compared element-wise.
+	for _, v := range top {
+		if !containsMatcher(matcher, v) {
 			return nil, false
 		}
 	}
 
 	// The top matcher and input matcher are equal. No replacement needed.
-	if len(topSet) == len(matcherSet) {
+	if len(top) >= len(matcher) {
 		return nil, false
 	}
 
